@@ -1164,3 +1164,201 @@ def check_encoder_fragment_offsets(ctx, rep, RULE):
            how="number of symbols produced for the earlier fragments (ghost counter + loop invariant)",
            witness=None if not bad else "the offset of a later fragment is not the total number of symbols of the earlier ones: the reported "
            "positions of its symbols point at other symbols", nontrivial=True, key="enc-frag-offset")
+
+
+def check_encoder_branch_offsets(ctx, rep, RULE):
+    """TE6: index bookkeeping of the encoder across *recursive* calls (branches).  The fragment printer F reports each symbol
+    it appends to its local symbol list D at position  len(D) - 1 + offset, where offset is F's offset parameter.  A branch is
+    printed by a recursive call before its branch symbol and index symbols are inserted in front of it, and the entries the
+    call filed are shifted afterwards.  Three structural conditions, each necessary for the branch's atom entries to carry
+    their true positions:
+      a  offset handed to the recursive call + shift applied afterwards == own offset + len(D) at the call + 1 + len(Q)
+         (Q = the index symbols inserted with the branch symbol)
+      b  the lower bound of the shifted range is len(maps) measured with no entry filed between the measurement and the call
+         (a measurement hoisted out of the bond loop also covers the entries of earlier branches and rings)
+      c  the upper bound is len(maps) measured after the call returned
+    Shapes the rule does not recognise are reported as undecided (note), never as a violation."""
+    from rules.shared import fragment_printer, resolve_local
+    from rules.C15 import poly
+    from sa.flow import Forward
+    encf, F = fragment_printer(ctx)
+
+    def undecided(why):
+        rep.note("TE6 (encoder branch offsets) not decided for this shape: " + why)
+        rep.ob(RULE, True, F.node, F, construct="branch offsets of the encoder", how="not decided for this shape (see note)", key="enc-branch-offset/undecided")
+    closures = [g for g in ctx.db.funcs.values() if getattr(g, "outer", None) is F]
+    scopes = [F] + closures
+    # the entry list M and the offset parameter: M.append(AttributionMap(<index>, ...)) in F or a closure of F
+    Ms, offs, Ds = set(), set(), set()
+    for g in scopes:
+        for n in own_nodes(g.node):
+            if isinstance(n, ast.Call) and isinstance(n.func, ast.Attribute) and n.func.attr == "append" and isinstance(n.func.value, ast.Name) \
+                    and len(n.args) == 1 and isinstance(n.args[0], ast.Call) and unparse(n.args[0].func).split(".")[-1] == "AttributionMap":
+                c = n.args[0]
+                idx = c.args[0] if c.args else next((k.value for k in c.keywords if k.arg == "index"), None)
+                if idx is None:
+                    continue
+                Ms.add(n.func.value.id)
+                offs |= {x.id for x in ast.walk(idx) if isinstance(x, ast.Name) and x.id in F.params}
+                Ds |= {unparse(x.args[0]) for x in ast.walk(idx) if isinstance(x, ast.Call) and unparse(x.func) == "len" and len(x.args) == 1
+                       and isinstance(x.args[0], ast.Name)}
+    rets = {r.value.id for r in own_nodes(F.node) if isinstance(r, ast.Return) and isinstance(r.value, ast.Name)}
+    Ds &= rets
+    if len(Ms) != 1 or len(offs) != 1 or len(Ds) != 1 or next(iter(Ms)) not in F.params:
+        return undecided("entry list / offset parameter / symbol list not identified (%s / %s / %s)" % (sorted(Ms), sorted(offs), sorted(Ds)))
+    M, offp, D = next(iter(Ms)), next(iter(offs)), next(iter(Ds))
+    # recursive calls
+    rec = [s.node for s in ctx.cg.sites(F) if F in s.callees and isinstance(s.node, ast.Call)]
+    if not rec:
+        return undecided("no recursive call of the fragment printer")
+    sites = {id(s.node): s for s in ctx.cg.sites(F)}
+    # the shift: <entry>.index += K over M[a:b] / range(a, b)
+    shifts = []
+    for lp in own_nodes(F.node):
+        if not isinstance(lp, ast.For) or not isinstance(lp.target, ast.Name):
+            continue
+        v = lp.target.id
+        lo = hi = None
+        if isinstance(lp.iter, ast.Call) and unparse(lp.iter.func) == "range" and len(lp.iter.args) == 2 and not lp.iter.keywords:
+            lo, hi = lp.iter.args
+            elem = lambda t: isinstance(t, ast.Subscript) and isinstance(t.value, ast.Name) and t.value.id == M \
+                and isinstance(t.slice, ast.Name) and t.slice.id == v
+        elif isinstance(lp.iter, ast.Subscript) and isinstance(lp.iter.value, ast.Name) and lp.iter.value.id == M and isinstance(lp.iter.slice, ast.Slice) \
+                and lp.iter.slice.step is None:
+            lo, hi = lp.iter.slice.lower, lp.iter.slice.upper
+            elem = lambda t: isinstance(t, ast.Name) and t.id == v
+        else:
+            continue
+        for st in lp.body:
+            if isinstance(st, ast.AugAssign) and isinstance(st.op, ast.Add) and isinstance(st.target, ast.Attribute) and st.target.attr == "index" \
+                    and elem(st.target.value):
+                shifts.append((lp, lo, hi, st.value))
+    if len(shifts) != 1 or len(rec) != 1:
+        return undecided("%d shift loop(s) over the entry list, %d recursive call(s)" % (len(shifts), len(rec)))
+    lp, lo, hi, K = shifts[0]
+    call = rec[0]
+    bound = {}
+    pos = F.posparams
+    for i, a in enumerate(call.args):
+        if i < len(pos):
+            bound[pos[i]] = a
+    for k in call.keywords:
+        if k.arg:
+            bound[k.arg] = k.value
+    probs = []
+    # ---- a: offsets add up
+    arg = bound.get(offp)
+    Kx = resolve_local(F, K)
+    pa = poly(resolve_local(F, arg)) if arg is not None else {}     # the parameter's default (0) when not passed
+    pk = poly(Kx)
+    # resolve names one level inside the polynomials (n_index_symbols = len(Q))
+    def expand(p):
+        if p is None:
+            return None
+        out = {}
+        for mono, c in p.items():
+            terms = [{(): 1}]
+            for nm in mono:
+                e = None
+                if not nm.startswith("len(") and nm in F.locals and nm not in F.params:
+                    e = resolve_local(F, ast.Name(id=nm, ctx=ast.Load()))
+                    e = None if isinstance(e, ast.Name) else poly(e)
+                q = e if e is not None else {(nm,): 1}
+                terms = [{tuple(sorted(k1 + k2)): v1 * v2 for k1, v1 in t.items() for k2, v2 in q.items()} for t in terms]
+            for t in terms:
+                for k2, v2 in t.items():
+                    out[k2] = out.get(k2, 0) + c * v2
+        return {k: v for k, v in out.items() if v}
+    pa, pk = expand(pa), expand(pk)
+    # Q: the list of index symbols inserted with the branch symbol: the local assigned from the index-symbol function of the length
+    # of the recursive call's result
+    resname = None
+    for st in own_nodes(F.node):
+        if isinstance(st, ast.Assign) and st.value is call and len(st.targets) == 1 and isinstance(st.targets[0], ast.Name):
+            resname = st.targets[0].id
+    Qs = []
+    if resname:
+        for st in own_nodes(F.node):
+            if isinstance(st, ast.Assign) and len(st.targets) == 1 and isinstance(st.targets[0], ast.Name) and isinstance(st.value, ast.Call) \
+                    and any(isinstance(x, ast.Call) and unparse(x.func) == "len" and x.args and isinstance(x.args[0], ast.Name) and x.args[0].id == resname
+                            for x in ast.walk(st.value)):
+                Qs.append(st.targets[0].id)
+    if pa is None or pk is None or len(Qs) != 1:
+        return undecided("offset argument / shift amount are not integer polynomials over names, or the index-symbol list was not identified")
+    Q = Qs[0]
+    total = dict(pa)
+    for k, c in pk.items():
+        total[k] = total.get(k, 0) + c
+    total = {k: c for k, c in total.items() if c}
+    want = {(offp,): 1, ("len(%s)" % D,): 1, (): 1, ("len(%s)" % Q,): 1}
+    if ("len(%s)" % D,) in pk:
+        return undecided("the shift amount mentions the current length of the symbol list")
+    if total != want:
+        probs.append("offset passed to the recursive call (%s) + shift (%s) is not own offset + len(%s) + 1 + len(%s): the entries of a branch "
+                     "inside a branch (or inside a later fragment) carry positions of other symbols"
+                     % (unparse(arg) if arg is not None else "default", unparse(K), D, Q))
+    # ---- b / c: when the bounds are measured
+    lo_n = lo.id if isinstance(lo, ast.Name) else None
+    hi_n = hi.id if isinstance(hi, ast.Name) else None
+    if lo_n is None or (hi is not None and hi_n is None and unparse(hi) != "len(%s)" % M):
+        return undecided("bounds of the shifted range are not plain names")
+    closure_appends = {g.name for g in closures if any(isinstance(x, ast.Name) and x.id == M for x in ast.walk(g.node))}
+
+    def files_entry(c):
+        if isinstance(c.func, ast.Attribute) and isinstance(c.func.value, ast.Name) and c.func.value.id == M \
+                and c.func.attr in ("append", "extend", "insert", "pop", "remove", "clear", "sort", "reverse"):
+            return True
+        if isinstance(c.func, ast.Name) and c.func.id in closure_appends:
+            return True
+        if isinstance(c.func, ast.Name) and c.func.id in ("len", "range", "enumerate", "reversed", "list", "tuple", "sorted", "iter", "zip",
+                                                          "isinstance", "id", "bool", "any", "all", "sum", "min", "max", "repr", "str") \
+                and c.func.id not in F.locals and c.func.id not in F.module.defs and c.func.id not in F.module.assigned and c.func.id not in F.module.imports:
+            return False        # builtins that only look at the list
+        return any(isinstance(a, ast.Name) and a.id == M for a in list(c.args) + [k.value for k in c.keywords])
+    found = {"b": None, "c": None, "call_seen": False}
+
+    class Fresh(Forward):
+        # state: frozenset of facts  ('fresh', name): name == len(M) now;  'called': the recursive call returned since the lower
+        # bound was measured and nothing was filed since
+        def join(self, a, b):
+            return a & b
+
+        def simple(self, st, state):
+            node = st.value if hasattr(st, "for_node") else st
+            calls = [c for c in ast.walk(node) if isinstance(c, ast.Call)]
+            for c in calls:
+                if c is call:
+                    found["call_seen"] = True
+                    if ("fresh", lo_n) not in state and found["b"] is None:
+                        found["b"] = c
+                    state = frozenset(x for x in state if not (isinstance(x, tuple) and x[0] == "fresh")) | {"called"}
+                elif files_entry(c):
+                    state = frozenset(x for x in state if not (isinstance(x, tuple) and x[0] == "fresh")) - {"called"}
+            if isinstance(st, ast.AugAssign) and isinstance(st.target, ast.Name) and st.target.id == M:
+                state = frozenset(x for x in state if not (isinstance(x, tuple) and x[0] == "fresh")) - {"called"}
+            if isinstance(st, ast.Assign) and len(st.targets) == 1 and isinstance(st.targets[0], ast.Name):
+                nm = st.targets[0].id
+                state = state - {("fresh", nm)}
+                if unparse(st.value) == "len(%s)" % M:
+                    state = state | {("fresh", nm)}
+                    if nm == lo_n:
+                        state = state - {"called"}
+                    if nm == hi_n and "called" not in state and found["c"] is None:
+                        found["c"] = st
+            return state
+
+        def for_bind(self, node, state):
+            if node is lp and hi_n is None and "called" not in state and found["c"] is None:
+                found["c"] = node
+            return state
+    Fresh(F.node).run(frozenset())
+    if not found["call_seen"]:
+        return undecided("the recursive call is not a statement-level call of the fragment printer's body")
+    if found["b"] is not None:
+        probs.append("the lower bound %r of the shifted range is not len(%s) measured just before the recursive call (entries filed in "
+                     "between -- earlier branches, rings -- are shifted again)" % (lo_n, M))
+    if found["c"] is not None:
+        probs.append("the upper bound of the shifted range is not len(%s) measured right after the recursive call returned" % M)
+    rep.ob(RULE, not probs, call, F, construct="recursive call of %s, shift over %s[%s:%s]" % (F.name, M, lo_n, hi_n or ""),
+           how="offset + shift == own offset + len(symbols) + 1 + len(index symbols); range bounds measured around the call (must-dataflow)",
+           witness="; ".join(probs) or None, nontrivial=True, key="enc-branch-offset/" + ("ok" if not probs else probs[0][:30]))
